@@ -42,11 +42,11 @@ type sNode struct {
 }
 type sDoc struct {
 	ctxExpanded map[string]bool // prefixes declared with an expanded term definition {"@id": ns, "@prefix": true}
-	ctx     [][2]string
-	base    string
-	nodes   []*sNode
-	wrapper string // graph | array | single
-	indent  bool
+	ctx         [][2]string
+	base        string
+	nodes       []*sNode
+	wrapper     string // graph | array | single
+	indent      bool
 }
 
 func (i sID) text() string {
@@ -252,6 +252,9 @@ func (d sDoc) text(r *rand.Rand) string {
 
 const c05Base = "http://example.org/d"
 
+// c05ForceEmbed makes serialise embed every node it may embed (used for the deep-chain documents).
+var c05ForceEmbed bool
+
 // serialise draws one surface form of g: independent random choices on every axis the property lists.
 func serialise(r *rand.Rand, g Graph, plain bool) sDoc {
 	d := sDoc{wrapper: "graph"}
@@ -381,7 +384,7 @@ func serialise(r *rand.Rand, g Graph, plain bool) sDoc {
 						if mustEmbed && k > 0 {
 							continue // a node without @id cannot be stated twice
 						}
-						if known && k == 0 && refCount[v.S] == 1 && v.S != n.ID && !ancestors[v.S] && !embedded[v.S] && !described[v.S] && (mustEmbed || r.Intn(2) == 0) {
+						if known && k == 0 && refCount[v.S] == 1 && v.S != n.ID && !ancestors[v.S] && !embedded[v.S] && !described[v.S] && (mustEmbed || c05ForceEmbed || r.Intn(2) == 0) {
 							embedded[v.S] = true
 							anc := map[string]bool{n.ID: true}
 							for a := range ancestors {
@@ -402,6 +405,11 @@ func serialise(r *rand.Rand, g Graph, plain bool) sDoc {
 	}
 	// embedding decisions depend on the order of traversal: decide top-level order first
 	order := r.Perm(len(g.Nodes))
+	if c05ForceEmbed {
+		for i := range order {
+			order[i] = i // start from the head of the chain so that everything below it gets embedded
+		}
+	}
 	tops := []*sNode{}
 	for _, i := range order {
 		n := g.Nodes[i]
@@ -419,6 +427,37 @@ func serialise(r *rand.Rand, g Graph, plain bool) sDoc {
 	}
 	d.indent = r.Intn(2) == 0
 	return d
+}
+
+// splitDescriptions: some top-level nodes with an @id are described by TWO node objects (each holding part of the
+// properties), placed apart in the document: the same triples, stated in two places.
+func splitDescriptions(r *rand.Rand, d *sDoc) {
+	out := []*sNode{}
+	extra := []*sNode{}
+	for _, n := range d.nodes {
+		if n.id.kind != "blank" && len(n.props) >= 2 && r.Intn(2) == 0 {
+			cut := 1 + r.Intn(len(n.props)-1)
+			second := &sNode{id: n.id, props: append([]sProp{}, n.props[cut:]...)}
+			if r.Intn(2) == 0 {
+				second.types = n.types // stating the types twice is the same graph
+				second.typeBare = n.typeBare
+			}
+			first := *n
+			first.props = append([]sProp{}, n.props[:cut]...)
+			out = append(out, &first)
+			extra = append(extra, second)
+		} else {
+			out = append(out, n)
+		}
+	}
+	for _, x := range extra {
+		pos := r.Intn(len(out) + 1)
+		out = append(out[:pos], append([]*sNode{x}, out[pos:]...)...)
+	}
+	d.nodes = out
+	if len(extra) > 0 && d.wrapper == "single" {
+		d.wrapper = "graph"
+	}
 }
 
 func plainVal(v GVal) sVal {
@@ -587,7 +626,7 @@ validations:
 
 func C05(e *core.Env) {
 	res := e.Res
-	res.Rule = "cases = (abstract graph, serialisation): graphs of 2-7 nodes with cycles, shared and single-parent children, literals of three kinds, dangling links and several types; each is written k times (quick 5, thorough 14) with independent random choices on every axis the property lists: @context prefixes (several prefixes for one namespace) or absolute IRIs, @vocab with bare terms for predicates and classes (some named like the built-in prefixes: data, core, doc), @base-relative ids, nodes embedded in their (only) parent or listed flat, @graph wrapper / top-level array / single object, node order, key order, single value vs one-element array, @type as string vs array, repeated values, indentation; " +
+	res.Rule = "cases = (abstract graph, serialisation): two chains of 40 and 75 nodes written flat and fully embedded (JSON nesting depth 80 / 150), graphs of 2-7 nodes with cycles, shared and single-parent children, literals of three kinds, dangling links and several types; each is written k times (quick 5, thorough 14) with independent random choices on every axis the property lists: @context prefixes (several prefixes for one namespace) or absolute IRIs, @vocab with bare terms for predicates and classes (some named like the built-in prefixes: data, core, doc), @base-relative ids, nodes embedded in their (only) parent or listed flat, @graph wrapper / top-level array / single object, node order, key order, one node described by two node objects with the same @id (also in the plain flat form AMF emits), single value vs one-element array, @type as string vs array, repeated values, indentation; " +
 		"(a) the real ProcessInput index of each text must equal JsonLd.flatten of the document structure that was written, (b) the reports of a 10-validation profile (counts, sets, patterns, nested over sequence / alternative / inverse paths, @type, negation, messages with placeholders) must agree across the k texts in conforms and in the set of (severity, validation, focus, message); non-trivial = the graph yields at least one result; distinct by text"
 	k := e.Pick(5, 14)
 	rc := config.DefaultReportConfiguration()
@@ -619,9 +658,26 @@ func C05(e *core.Env) {
 		}
 		return fmt.Sprintf("conforms=%v\n", rep.Conforms) + strings.Join(out, "\n"), len(out)
 	}
-	for gi := 0; gi < e.Pick(40, 400); gi++ {
+	nGraphs := e.Pick(40, 400)
+	for gi := 0; gi < nGraphs+2; gi++ {
 		n := 2 + e.Rand.Intn(6)
 		g := RandomEdgeGraph(e.Rand, n, []string{"a", "b", "c"}, 0.12+0.25*e.Rand.Float64())
+		chain := gi >= nGraphs
+		if chain {
+			// a long chain n0 -a-> n1 -a-> ... : written flat, or with every node embedded in its predecessor (deep nesting)
+			g = Graph{}
+			length := []int{40, 75}[gi-nGraphs]
+			for i := 0; i < length; i++ {
+				node := GNode{ID: NodeID(i), Types: []string{ExNS + "T"}}
+				if i+1 < length {
+					node.Props = append(node.Props, GProp{Iri: ExNS + "a", Vals: []GVal{VR(NodeID(i + 1))}})
+				}
+				if i%2 == 0 {
+					node.Props = append(node.Props, GProp{Iri: ExNS + "b", Vals: []GVal{VS("lit-b0")}})
+				}
+				g.Nodes = append(g.Nodes, node)
+			}
+		}
 		blanks := 0
 		if gi%3 == 2 {
 			// leaf nodes without @id: each is the value of exactly one property of one named node
@@ -668,7 +724,12 @@ func C05(e *core.Env) {
 		var refText, refSummary string
 		refMulti := map[string]string{}
 		for si := 0; si < k; si++ {
-			d := serialise(e.Rand, g, si == 0)
+			c05ForceEmbed = chain && si%2 == 0
+			d := serialise(e.Rand, g, si <= 1 && !c05ForceEmbed)
+			c05ForceEmbed = false
+			if si == 1 || (si > 1 && e.Rand.Intn(3) == 0) {
+				splitDescriptions(e.Rand, &d) // one node described by two node objects with the same @id
+			}
 			text := d.text(e.Rand)
 			replay := map[string]any{"serialisation": text, "graph_index": gi, "serialisation_index": si}
 			// (a) the normaliser against the model
